@@ -248,17 +248,8 @@ func (x *ttlCtx) checkRecency(t *Trace, name, method string) {
 		return
 	}
 	facts := t.factsBefore(len(t.Events))
-	var ele *Sym
-	for _, e := range t.Events {
-		if e.Kind == EvMapLookup && e.Res.Kind == KTuple {
-			if _, ok := symFieldBase(e.Addr, x.eleHash); ok {
-				if v, known := boolFact(facts, e.Res.Args[1]); known && v {
-					ele = e.Res.Args[0]
-				}
-			}
-		}
-	}
-	if ele == nil {
+	ele, hit, _ := x.indexLookup(t, facts)
+	if ele == nil || !hit {
 		return
 	}
 	removed, moved := false, false
@@ -350,18 +341,8 @@ func (x *ttlCtx) checkExpiry(t *Trace, name, method string) {
 	}
 	facts := t.factsBefore(len(t.Events))
 	// the looked-up element
-	var ele *Sym
-	found := false
-	for _, e := range t.Events {
-		if e.Kind == EvMapLookup {
-			if _, ok := symFieldBase(e.Addr, x.eleHash); ok && e.Res.Kind == KTuple {
-				ele = e.Res.Args[0]
-				if v, known := boolFact(facts, e.Res.Args[1]); known && v {
-					found = true
-				}
-			}
-		}
-	}
+	ele, found, missed := x.indexLookup(t, facts)
+	_ = missed
 	if ele == nil || !found {
 		return
 	}
@@ -623,18 +604,8 @@ func (x *ttlCtx) checkOptions(t *Trace, name, method string) {
 		}
 		return false, false
 	}
-	var ele *Sym
-	found := false
-	for _, e := range t.Events {
-		if e.Kind == EvMapLookup {
-			if _, ok := symFieldBase(e.Addr, x.eleHash); ok && e.Res.Kind == KTuple {
-				ele = e.Res.Args[0]
-				if v, known := boolFact(facts, e.Res.Args[1]); known && v {
-					found = true
-				}
-			}
-		}
-	}
+	ele, found, missed := x.indexLookup(t, facts)
+	_ = missed
 	if len(t.Ret) == 0 {
 		return
 	}
@@ -723,14 +694,7 @@ func (x *ttlCtx) checkOptions(t *Trace, name, method string) {
 		}
 		if !found && ele != nil {
 			isNF := ret.Kind == KInit && ret.Args[0].Kind == KGlobal && ret.Args[0].Ref.(*ssa.Global).Name() == "ErrTTLKeyNotFound"
-			if v, known := boolFact(facts, func() *Sym {
-				for _, e := range t.Events {
-					if e.Kind == EvMapLookup {
-						return e.Res.Args[1]
-					}
-				}
-				return symBool(false)
-			}()); known && !v {
+			if missed {
 				c.check(isNF, "C05.options", name+" miss", t.Entry.Pos(), "", "a key that is not in the index is not reported as ErrTTLKeyNotFound", c.witness(t, len(t.Events)-1)...)
 			}
 		}
@@ -1137,4 +1101,35 @@ func (x *ttlCtx) checkRedis() {
 			}
 		}
 	}
+}
+
+// indexLookup: the element the path looked up in the index and what it learnt. Both spellings are read:
+// `ele, ok := eleHash[key]` decided by ok, and `ele := eleHash[key]` decided by ele == nil (every value the
+// index-list-coupled rule lets into the index is PushFront's result, never nil, so nil means absent).
+func (x *ttlCtx) indexLookup(t *Trace, facts []Fact) (ele *Sym, found, missed bool) {
+	for _, e := range t.Events {
+		if e.Kind != EvMapLookup {
+			continue
+		}
+		if _, ok := symFieldBase(e.Addr, x.eleHash); !ok {
+			continue
+		}
+		found, missed = false, false
+		if e.Res.Kind == KTuple {
+			ele = e.Res.Args[0]
+			if v, known := boolFact(facts, e.Res.Args[1]); known {
+				found, missed = v, !v
+			}
+			continue
+		}
+		ele = e.Res
+		r := e.Res
+		if hasFact(facts, func(f Fact) bool { return f.X.Key() == r.Key() && f.Op == token.NEQ && f.Y.isNilConst() }) {
+			found = true
+		}
+		if hasFact(facts, func(f Fact) bool { return f.X.Key() == r.Key() && f.Op == token.EQL && f.Y.isNilConst() }) {
+			missed = true
+		}
+	}
+	return
 }
